@@ -38,13 +38,14 @@ def replay(q, args, kwargs):
     if q.meta.get('h') == 's':
         return replay_s(q, args, kwargs)
     h = runner.load_module(H, 'h_c10_native')
-    scope, kind, name, read, dotted = args
-    bad = h.problems(scope, kind, name, bool(read), bool(dotted))
+    scope, kind, name, read, dotted = args[:5]
+    loc = args[5] if len(args) > 5 else kwargs.get('loc', 0)
+    bad = h.problems(scope, kind, name, bool(read), bool(dotted), loc)
     if not bad:
         return {'violated': False}
     return {'violated': True, 'known': None,
-            'what': '%s binding in %s scope (name shape %d, %s): %s'
-                    % (h.KINDS[kind][0], h.SCOPES[scope], name, 'read' if read else 'never read', bad[0]),
+            'what': '%s binding in %s scope (name shape %d, %s, locals() companion %d): %s'
+                    % (h.KINDS[kind][0], h.SCOPES[scope], name, 'read' if read else 'never read', loc, bad[0]),
             'replay': {'args': args}}
 
 
@@ -66,17 +67,17 @@ def run(tier, seed):
                     'twin', 60, meta={'h': 's'}))
     runner.run_queries(PID, qs)
     rep.absorb(qs, replay)
-    ncomb = sum(1 for s in range(6) for k in range(len(h.KINDS)) for n in range(3) for r in (False, True)
-                if h.build(s, k, n, r, False) is not None)
+    ncomb = sum(1 for s in range(6) for k in range(len(h.KINDS)) for n in range(3) for r in (False, True) for lz in range(3)
+                if h.build(s, k, n, r, False, lz) is not None)
     rep.functions = ['supp.linter.lint (use_name, the locals() branch, the exemption chain)', 'SourceScope.all_names',
                      'nast.extract', 'Flow.names_at']
-    rep.bounds = ['%d constructed modules: 24 binding kinds (assignment forms, walrus, for/with/except targets, comprehension variable, '
+    rep.bounds = ['%d constructed modules: 27 binding kinds (assignment forms, bindings on two branches / one of two paths, try/except imports, walrus, for/with/except targets, comprehension variable, '
                   'def, class, import forms incl. dotted / __future__ / star, three parameter kinds) x 6 scope kinds (module, class, function, '
-                  'method, lambda, nested function) x name shape (plain, underscore) x read / never read' % ncomb]
+                  'method, lambda, nested function) x name shape (plain, underscore) x read / never read x locals() companion (none, an unrelated function calling locals(), a nested function of the binding scope calling locals())' % ncomb]
     rep.bounds.append('(S) companion: 10 modules in which the identifier of the binding is ANY string of length 2 (symbolic), through the whole of lint()')
     rep.assumptions = ['solver-enumerated (E): every path is one concrete module through the real lint(); the (S) companion uses the template tree + symbolic-container transform of C01-C03',
                        'reference: the rule in the property text evaluated on the construction (kind, scope, name shape, read flag)',
-                       'locals(), global/nonlocal redirections and the real-file corpus are outside']
+                       'a locals() call in the scope of the binding itself (which by the stated mechanism marks every local used), global/nonlocal redirections and the real-file corpus are outside']
     rep.samples.append({'module': h.build(3, 6, 0, False, False)[0], 'expected': h.build(3, 6, 0, False, False)[1]})
     rep.samples.append({'module': h.build(0, 13, 0, False, False)[0], 'expected': h.build(0, 13, 0, False, False)[1]})
     return rep.finish('CrossHair enumerates (scope kind, binding kind, name shape, read flag) as solver variables; on each path the real lint() '
